@@ -45,8 +45,9 @@ PROP = dict(
           "the real path and through the link (size, content, firstBytes, read, text, lines, isFile); copy / move into a directory may name the directory "
           "through a symbolic link (bit 3). Self-moves (op 'ms'): Directory::move / File::move of the file onto itself under another spelling (dir+'/', "
           "'/./', 'sub/../', '//', relative source with absolute destination) must return true and leave the file untouched, as the unchanged library "
-          "does; moves onto an existing different file / into a directory holding another file of that name replace it. (Directory::copy of a file onto "
-          "itself is not generated: the unchanged library truncates the file, as fopen(\"wb\") on the source does.) "
+          "does; moves onto an existing different file / into a directory holding another file of that name replace it. Self-copies (op 'cs'): Directory::copy / File::copy of the file onto itself - into its own directory (dir, dir+'/'), '/./', "
+          "'sub/../', '//', relative source with absolute destination, onto a symbolic link to it and from that link onto it: whatever the call returns "
+          "(refusal or no-op), the file keeps its bytes (FX-44); copy onto an existing different file overwrites it. "
           "Non-trivial: hist - a phase leaves >= 255 bytes in the file or appends after a reopen or queries an open writer and writes on; bomlong - all; lines - a raw line of >= 254 bytes (crosses the "
           "255-byte fgets chunk) or CRLF and lone CR in one text; bom - a supplementary-plane scalar or a CR LF pair; copy and grid - all. Distinct = "
           "distinct FNV-1a hash of the serialised case."),
